@@ -24,6 +24,10 @@ def tok (bn : Nat) (w : W) (t : String) : Option W :=
   | ["i", mc] => mc.toNat?.map (fun mc =>
       let (w, rid) := rerIdOf w
       { w with infos := w.infos ++ [{ index := w.infos.length, block := bn, mcount := mc, rerId := rid, lcount := w.lcount }] })
+  -- `i:0:z`: the mainnet exit root is still bytes32(0) (no mainnet deposit yet) — no stored root either way
+  | ["i", mc, _] => mc.toNat?.map (fun mc =>
+      let (w, rid) := rerIdOf w
+      { w with infos := w.infos ++ [{ index := w.infos.length, block := bn, mcount := mc, rerId := rid, lcount := w.lcount }] })
   | ["v", rid, x] =>
     match rid.toNat?, x.toNat? with
     | some rid, some x =>
